@@ -224,6 +224,7 @@ class Interp:
         self.max_steps = self.opts.get('max_steps', 2000000)
         self.notes = []
         self.hint_eqs = None
+        self.choices = {}
         self.hint_values = None
         self.quick_ms = self.opts.get('quick_fork_ms', 400)
         self.lazy = self.opts.get('lazy_forks', False)
@@ -307,7 +308,9 @@ class Interp:
         for i in range(n - 1):
             b = self.ctx.fresh('choice_' + label, 'bool')
             if self.fork(b):
+                self.choices[label] = i
                 return i
+        self.choices[label] = n - 1
         return n - 1
 
     def assume(self, cond):
